@@ -55,8 +55,10 @@ Md5Step(r, X, i) ==
       a2  == WAdd(r[2], WRotl(t, s))
   IN <<r[4], a2, r[2], r[3]>>       \* (a,b,c,d) <- (d, new, b, c)
 
+\* steps i..i+3 (recursion kept shallow: TLC slows down on deep recursion)
+Md5Four(r, X, i) == Md5Step(Md5Step(Md5Step(Md5Step(r, X, i), X, i + 1), X, i + 2), X, i + 3)
 RECURSIVE Md5Steps(_, _, _)
-Md5Steps(r, X, i) == IF i = 64 THEN r ELSE Md5Steps(Md5Step(r, X, i), X, i + 1)
+Md5Steps(r, X, i) == IF i = 64 THEN r ELSE Md5Steps(Md5Four(r, X, i), X, i + 4)
 
 \* process the 64-byte block starting at 0-based offset off of padded message p
 Md5Block(r, p, off) ==
